@@ -20,7 +20,15 @@ pub enum FaultCase {
     /// an input saved by a libFuzzer target (first two bytes select the type from the target's list)
     FuzzArtifact { target: String, bytes: Vec<u8> },
     Raw { ty: Ty, bytes: Vec<u8> },
-    Tampered { ty: Ty, val: Val, ops: Vec<TOp>, donor: Option<Val> },
+    Tampered {
+        ty: Ty,
+        val: Val,
+        ops: Vec<TOp>,
+        donor: Option<Val>,
+        /// form choices of the valid encoding that is tampered with (true = unknown-length form for that sequence node)
+        #[serde(default)]
+        forms: Vec<bool>,
+    },
     Ops(OpsCase),
 }
 
@@ -44,9 +52,9 @@ pub fn tampered_strategy() -> BoxedStrategy<FaultCase> {
     tv_strategy_ext(3, cfg, true)
         .prop_flat_map(move |tv| {
             let donor = prop_oneof![1 => Just(None), 1 => vmodel::gen::val_strategy(&tv.ty, cfg).prop_map(Some)];
-            (Just(tv), tops_strategy(), donor)
+            (Just(tv), tops_strategy(), donor, prop_oneof![3 => Just(vec![]), 1 => proptest::collection::vec(any::<bool>(), 1..8)])
         })
-        .prop_map(|(tv, ops, donor)| FaultCase::Tampered { ty: tv.ty, val: tv.val, ops, donor })
+        .prop_map(|(tv, ops, donor, forms)| FaultCase::Tampered { ty: tv.ty, val: tv.val, ops, donor, forms })
         .boxed()
 }
 
@@ -62,8 +70,8 @@ pub fn materialize(c: &FaultCase) -> Option<(Ty, Vec<u8>, Vec<u8>, String)> {
             Some((ty.clone(), rest.to_vec(), vec![], format!("libFuzzer artifact of {target}")))
         }
         FaultCase::Raw { ty, bytes } => Some((ty.clone(), bytes.clone(), vec![], "raw bytes".into())),
-        FaultCase::Tampered { ty, val, ops, donor } => {
-            let frag = ref_encode(ty, val).ok()?;
+        FaultCase::Tampered { ty, val, ops, donor, forms } => {
+            let frag = if forms.is_empty() { ref_encode(ty, val).ok()? } else { vmodel::refcodec::ref_encode_forms(ty, val, &mut vmodel::refcodec::ScriptForms::new(forms.clone())).ok()? };
             let dfrag = donor.as_ref().and_then(|d| ref_encode(ty, d).ok());
             let (bytes, applied) = apply(&frag, ops, dfrag.as_ref());
             let label = if applied.kinds.is_empty() { "untouched".to_string() } else { applied.kinds.join(" + ") };
@@ -243,10 +251,12 @@ pub fn run_c05(cx: &Cx) -> PropResult {
         }
     });
     let ml = exhaustive_len(cx);
+    let mut acc = acc;
+    reduce_fault_violations(&mut acc, &|c, a, r| check_c05(c, a, r));
     let mut r = PropResult::new(
         acc,
         "fault_enumeration",
-        "inputs: (a) EVERY byte string of length <= 2 (thorough, release profile: <= 3 for leaf and one-level types) for a fixed list of types covering every leaf, every constructor and hand-written derived declarations with every evolution step kind (exhaustive for that sub-space); (b) random byte strings up to 4 KiB (length skewed short) against generated types incl. derived/evolved declarations; (c) structure-aware tampering of valid encodings (1-3 composed operators on the reference encoder's site map: rewrite a chunk size / count / length / constructor index / back-reference to 0, 1, v+-1, 2v, -1..-4, i32::MIN, i32::MAX, u32::MAX; replace version / tag / flag / position bytes; delete, duplicate, swap, splice element and chunk ranges; truncate; append; bit flips; over-long varints); (d) generated op sequences on SliceInput / OwnedInput / DeserializationContext with adversarial counts (usize::MAX, usize::MAX - pos, remaining +- 2). Oracle: Ok or Err — no unwind (catch_unwind), no process death or hang (supervisor watches the slot file: a case running > 90 s is re-run alone twice), and under a tracking allocator peak live heap <= 64 KiB + (32*S+256)*(n+1) (a B-tree leaf holds 11 slots however few elements it has) and no single request above max(64 KiB, 2*S*(n+1)) for input length n, S = size_of of the harness element type. Both the overflow-checked and the release profile are run. Non-trivial = the input is not a valid encoding of the type (per the reference decoder) and is non-empty.",
+        "inputs: (a) EVERY byte string of length <= 2 (thorough, release profile: <= 3 for leaf and one-level types) for a fixed list of types covering every leaf, every constructor and hand-written derived declarations with every evolution step kind (exhaustive for that sub-space); (b) random byte strings up to 4 KiB (length skewed short) against generated types incl. derived/evolved declarations; (c) structure-aware tampering of valid encodings — in the writer's form or, for a quarter of the cases, with sequence nodes in unknown-length form — (1-3 composed operators on the reference encoder's site map: rewrite a chunk size / count / length / constructor index / back-reference to 0, 1, v+-1, 2v, -1..-4, i32::MIN, i32::MAX, u32::MAX; replace version / tag / flag / position bytes; delete, duplicate, swap, splice element and chunk ranges; truncate; append; bit flips; over-long varints); (d) generated op sequences on SliceInput / OwnedInput / DeserializationContext with adversarial counts (usize::MAX, usize::MAX - pos, remaining +- 2). Oracle: Ok or Err — no unwind (catch_unwind), no process death or hang (supervisor watches the slot file: a case running > 90 s is re-run alone twice), and under a tracking allocator peak live heap <= 64 KiB + (32*S+256)*(n+1) (a B-tree leaf holds 11 slots however few elements it has) and no single request above max(64 KiB, 2*S*(n+1)) for input length n, S = size_of of the harness element type. Both the overflow-checked and the release profile are run. Non-trivial = the input is not a valid encoding of the type (per the reference decoder) and is non-empty.",
     );
     r.exhaustive = Some(true);
     r.extra = json!({"exhaustive_max_len": ml, "exhaustive_note": "exhaustive refers to sub-space (a); (b)-(d) are sampled", "element_size_S": vcat::LIVE_SIZE});
@@ -392,6 +402,8 @@ pub fn run_c06(cx: &Cx) -> PropResult {
             }
         }
     });
+    let mut acc = acc;
+    reduce_fault_violations(&mut acc, &|c, a, r| check_c06(c, a, r));
     let mut r = PropResult::new(
         acc,
         "fault_enumeration",
@@ -444,4 +456,30 @@ pub fn export_corpus(target: &str, dir: &std::path::Path, seed: u64) {
         }
     }
     eprintln!("exported {n} seed inputs for {target}");
+}
+
+/// walks a failing tampered case down to the smallest sub-term (type, value) that still fails under the same
+/// operators (proptest cannot shrink the type of a flat-mapped case)
+pub fn reduce_fault_violations(acc: &mut Acc, check: &dyn Fn(&FaultCase, &mut Acc, bool) -> Verdict) {
+    use crate::props::builtin::{reduce_tv, TV};
+    for v in acc.violations.iter_mut() {
+        if let Ok(FaultCase::Tampered { ty, val, ops, donor, forms }) = serde_json::from_value::<FaultCase>(v.replay.clone()) {
+            let fails = |t: &TV| {
+                let c = FaultCase::Tampered { ty: t.ty.clone(), val: t.val.clone(), ops: ops.clone(), donor: None, forms: forms.clone() };
+                match guarded(|| check(&c, &mut Acc::new(), false)) {
+                    Ok(Verdict::Fail(m)) => Some(m),
+                    Ok(_) => None,
+                    Err(p) => Some(format!("panic: {p}")),
+                }
+            };
+            let _ = donor;
+            let start = TV { ty: ty.clone(), val: val.clone(), forms: vec![] };
+            // only reduce when the case still fails without the donor (splices need it)
+            if fails(&start).is_some() {
+                let (small, msg) = reduce_tv(start, v.what.clone(), &fails);
+                v.what = msg;
+                v.replay = to_json(&FaultCase::Tampered { ty: small.ty, val: small.val, ops: ops.clone(), donor: None, forms: forms.clone() });
+            }
+        }
+    }
 }
